@@ -292,6 +292,42 @@ def _tcp_bytes(o):
     return b''.join(w.chunks)
 
 
+class _CongestedWriter:
+    """a socket that cannot take the data at once: asyncio's selector transport then queues a memoryview of the CALLER's
+    object (no copy) and sends it later — whatever the caller does to that object in the meantime goes out on the wire"""
+
+    def __init__(self):
+        self.queue = []
+
+    def write(self, b):
+        self.queue.append(memoryview(b) if isinstance(b, (bytearray, memoryview)) else b)
+
+    async def drain(self):
+        pass
+
+    def flushed(self):
+        return b''.join(bytes(x) for x in self.queue)
+
+
+def tcp_congested(frames):
+    """several frames through ONE TransportTCP whose writer is congested; returns (bytes that finally go out, concatenation of
+    the one-shot encodings)"""
+    import asyncio
+    from rsocket.transports.tcp import TransportTCP
+    from rsocket.frame import serialize_with_frame_size_header
+    w = _CongestedWriter()
+    t = TransportTCP(None, w)
+    objs = [build(f) for f in frames]
+    want = b''.join(serialize_with_frame_size_header(build(f)) for f in frames)
+    loop = asyncio.new_event_loop()
+    try:
+        for o in objs:
+            loop.run_until_complete(t.send_frame(o))
+    finally:
+        loop.close()
+    return w.flushed(), want
+
+
 def run_batch(jobs):
     """jobs: list of ('enc', frame-dict) | ('dec', bytes).  Returns outputs in order."""
     from rsocket.frame import serialize_with_frame_size_header
